@@ -1174,6 +1174,11 @@ def run(run: core.Run, tier: str):
       "binary / ternary / po2, 1-3 merges, merges of merges, multi-output) and with (Q)BatchNormalization "
       "variants (scale / center off, po2 parameters); op_cost of every layer of every call judged against "
       "the documented function of the reported operator type, implementation, count and operand number; "
+      "plus 20 models (own PRNG stream) with merges of BROADCAST operands (channel / spatial / one-axis / all-axes / "
+      "rank-2 gates, full operand first / middle / last, two-sided broadcasts) and floating-point REFERENCE models "
+      "(keras_quantizer / keras_accumulator from fp16 / fp32 / None, default_interm_quantizer fp16 / fp32, own fp16 "
+      "polynomials); every multi-operand merge of every model also through CreateGraph -> "
+      "generate_layer_data_type_map with its operand edges re-inserted smallest-first and largest-first; "
       "non-trivial = distinct (class, geometry) layer or distinct (model, placement) or distinct later call")
   run.assumptions += [
       "Keras compute_output_shape / conv_output_length is trusted Keras code; its result is compared with "
